@@ -44,42 +44,54 @@ MaxLane(S) == CHOOSE l \in S : \A k \in S : k <= l
 
 \* "Find min length ... call kernel ... len_is_0: process completed job idx"
 \* eff = the lengths the selection sees, st.args = the arguments the kernel will use
-\* result: new state, the completed job, and the set of <<buffer, position, key>> cells the kernel wrote
-Process(st, eff) ==
+\* result: new state, the completed job and the minimum handed to the kernel
+Adv(st, eff) ==
     LET idx == ArgMin(eff)
         mn == eff[idx]
         mr == ((mn + R - 1) \div R) * R                       \* what the kernel takes off every lane
-        \* bytes actually processed per lane (idle lanes duplicate a live lane for exactly the minimum)
-        adv == [l \in Lanes |-> IF st.jil[l] = NOJOB THEN mn ELSE IF eff[l] > mr THEN mr ELSE eff[l]]
+    \* bytes actually processed per lane (idle lanes duplicate a live lane for exactly the minimum)
+    IN [l \in Lanes |-> IF st.jil[l] = NOJOB THEN mn ELSE IF eff[l] > mr THEN mr ELSE eff[l]]
+
+Process(st, eff) ==
+    LET idx == ArgMin(eff)
+        mn == eff[idx]
+        adv == Adv(st, eff)
         lens2 == IF mn = 0 THEN st.lens ELSE [l \in Lanes |-> eff[l] - adv[l]]
-        writes == IF mn = 0 THEN {}
-                  ELSE UNION { { <<st.args[l].buf, st.args[l].pos + k, st.args[l].key>> : k \in 0 .. adv[l] - 1 } : l \in Lanes }
         args2 == [l \in Lanes |-> [st.args[l] EXCEPT !.pos = @ + adv[l]]]
     IN [st |-> [stack |-> <<idx>> \o st.stack,
                 jil |-> [st.jil EXCEPT ![idx] = NOJOB],
                 lens |-> lens2,
                 args |-> args2],
         ret |-> st.jil[idx],
-        writes |-> writes,
         kernel |-> mn]
 
+\* the set of <<buffer, position, key>> cells that kernel call writes (kept apart from Process: trace replay never needs it)
+ProcessWrites(st, eff) ==
+    LET adv == Adv(st, eff) IN
+    IF eff[ArgMin(eff)] = 0 THEN {}
+    ELSE UNION { { <<st.args[l].buf, st.args[l].pos + k, st.args[l].key>> : k \in 0 .. adv[l] - 1 } : l \in Lanes }
+
 \* SUBMIT_JOB_AES_ENC
+SubmitState(st, j, len) ==
+    LET lane == Head(st.stack) IN
+    [stack |-> Tail(st.stack),
+     jil |-> [st.jil EXCEPT ![lane] = j],
+     lens |-> [st.lens EXCEPT ![lane] = len],
+     args |-> [st.args EXCEPT ![lane] = [buf |-> j, pos |-> 0, key |-> j]]]
 OSubmit(st, j, len) ==
-    LET lane == Head(st.stack)
-        st1 == [stack |-> Tail(st.stack),
-                jil |-> [st.jil EXCEPT ![lane] = j],
-                lens |-> [st.lens EXCEPT ![lane] = len],
-                args |-> [st.args EXCEPT ![lane] = [buf |-> j, pos |-> 0, key |-> j]]]
+    LET st1 == SubmitState(st, j, len)
     IN IF st1.stack # <<>>
-       THEN [st |-> st1, ret |-> NOJOB, writes |-> {}, kernel |-> 0]      \* lanes not full: return NULL
+       THEN [st |-> st1, ret |-> NOJOB, kernel |-> 0]      \* lanes not full: return NULL
        ELSE Process(st1, st1.lens)
+OSubmitWrites(st, j, len) ==
+    LET st1 == SubmitState(st, j, len) IN IF st1.stack # <<>> THEN {} ELSE ProcessWrites(st1, st1.lens)
 
 \* FLUSH_JOB_AES_ENC
+FlushArgs(st) == LET good == MaxLane(Busy(st)) IN                              \* the cmovne chain: highest busy lane
+                 [st EXCEPT !.args = [l \in Lanes |-> IF st.jil[l] = NOJOB THEN st.args[good] ELSE st.args[l]]]
+FlushEff(st) == [l \in Lanes |-> IF st.jil[l] = NOJOB THEN MAXLEN ELSE st.lens[l]]
 OFlush(st) ==
-    IF Busy(st) = {}
-    THEN [st |-> st, ret |-> NOJOB, writes |-> {}, kernel |-> 0]
-    ELSE LET good == MaxLane(Busy(st))                                     \* the cmovne chain: highest busy lane
-             args1 == [l \in Lanes |-> IF st.jil[l] = NOJOB THEN st.args[good] ELSE st.args[l]]
-             eff == [l \in Lanes |-> IF st.jil[l] = NOJOB THEN MAXLEN ELSE st.lens[l]]
-         IN Process([st EXCEPT !.args = args1], eff)
+    IF Busy(st) = {} THEN [st |-> st, ret |-> NOJOB, kernel |-> 0]
+    ELSE Process(FlushArgs(st), FlushEff(st))
+OFlushWrites(st) == IF Busy(st) = {} THEN {} ELSE ProcessWrites(FlushArgs(st), FlushEff(st))
 =============================================================================
